@@ -157,6 +157,12 @@ def run_shard(args):
     os.environ.setdefault('PYTHONHASHSEED', '0')
     import warnings
     warnings.simplefilter('ignore')
+    try:        # kill -USR1 <worker pid> dumps its Python stack to /tmp/vf_stack_<pid>.log (debugging aid for slow cases)
+        import faulthandler
+        import signal
+        faulthandler.register(signal.SIGUSR1, file=open('/tmp/vf_stack_%d.log' % os.getpid(), 'w'), all_threads=True)
+    except Exception:
+        pass
     t0 = time.time()
     res = {'shard': shard, 'evaluations': 0, 'status': {}, 'labels': {}, 'nt_hashes': [],
            'samples': [], 'failures': [], 'harness_errors': [], 'budget_hit': False,
@@ -206,6 +212,9 @@ def run_shard(args):
             if time.time() - t0 > budget:
                 res['budget_hit'] = True
                 return
+            if os.environ.get('VERIF_TRACE_CASES'):      # debugging aid: which case is a worker busy with?
+                with open('/tmp/vf_cur_%d.json' % os.getpid(), 'w') as fh:
+                    json.dump({'case': case, 'index': i, 'shard': shard}, fh, default=str)
             tc = time.time()
             out = safe_check(prop, case)
             dt = time.time() - tc
